@@ -50,8 +50,11 @@ def doneAccesses (call : String) : List String :=
   [ "var done uint32", "atomic.StoreUint32(&done, 1)", call, "atomic.StoreUint32(&done, 1)", "param *uint32",
     "atomic.LoadUint32(done)" ]
 
-theorem skeleton_v1 : Gen.Pow.mineSkeletonV1 = mineSkeleton := by decide
-/-- v2 differs only by the early `targetScore == 0` return before anything is created -/
+/-- v1 first waits for cancellation and returns the cancellation error when the target is unattainable
+(`Iota.Mine.preambleV1`), before anything is created -/
+theorem skeleton_v1 : Gen.Pow.mineSkeletonV1 = "recv <-ctx.Done()" :: "return 0, ErrCancelled" :: mineSkeleton := by decide
+/-- v2 differs only by the early `targetScore == 0` return before anything is created (its target validation has no
+synchronisation operation; its position before the first `go` is pinned by the source text) -/
 theorem skeleton_v2 : Gen.Pow.mineSkeletonV2 = "return 0, nil" :: mineSkeleton := by decide
 theorem worker_v1 : Gen.Pow.workerSkeletonV1 = workerSkeleton := by decide
 theorem worker_v2 : Gen.Pow.workerSkeletonV2 = workerSkeleton := by decide
